@@ -23,6 +23,7 @@ from geomgen import Gen, Node, env_tokens
 
 ATOL, RTOL, BATOL = "1/100000000", "1/100000", "1/100000"   # torch.isclose defaults; BARY_ATOL of parallelogram.py
 VEC_TOL = 1e-4
+SAMPLER_SOURCES = ("random", "grid", "drandom", "dgrid")
 UNIT_TOL = 1e-4
 
 
@@ -155,13 +156,33 @@ def leaf_boundary_points(leaf, env, rng, m):
 # ---------------------------------------------------------------------------------------------
 # generation
 
-def gen_bool(g, rng, depth, var, envs):
+def gen_flip_prim(rng, var="x"):
+    """triangle / parallelogram whose corner_2 is `origin + (2t − 1)·w`: the vertex ORIENTATION flips between parameter
+    rows t < 1/2 and t > 1/2 (rows are drawn with |2t − 1| ≥ 1/4, so |det| stays away from 0); origin and corner_1 constant"""
+    from geomgen import PF, c, v, dy
+    kind = rng.choice(["tri", "tri", "par"])
+    while True:
+        o = [dy(rng, -2, 2), dy(rng, -2, 2)]
+        d1 = [dy(rng, -3, 3), dy(rng, -3, 3)]
+        w = [dy(rng, -3, 3), dy(rng, -3, 3)]
+        det = d1[0] * w[1] - d1[1] * w[0]
+        if abs(det) >= 2 and max(map(abs, d1)) >= Fr(1, 2) and max(map(abs, w)) >= 1:
+            break
+    c2 = PF([("+", c(o[j] - w[j]), ("*", c(2 * w[j]), v("t"))) for j in range(2)])
+    return Node(kind, var, [PF([c(o[0]), c(o[1])]), PF([c(o[0] + d1[0]), c(o[1] + d1[1])]), c2]), o, min(
+        math.hypot(float(d1[0]), float(d1[1])), math.hypot(float(w[0]), float(w[1])) / 4)
+
+
+FLIP_ROWS = [Fr(0), Fr(1, 8), Fr(1, 4), Fr(3, 8), Fr(5, 8), Fr(3, 4), Fr(7, 8), Fr(1)]
+
+
+def gen_bool(g, rng, depth, var, envs, top=None):
     """nested union / cut / intersection of primitives whose operands really overlap (checked with floats on the
     first parameter row): the composite boundary then has pieces of both operands"""
     if depth <= 1:
         return g.prim(var)
     for _ in range(30):
-        op = rng.choice(["union", "cut", "inter", "cut"])
+        op = top or rng.choice(["union", "cut", "inter", "cut"])
         a = gen_bool(g, rng, depth - 1 if rng.random() < 0.6 else 1, var, envs)
         b = gen_bool(g, rng, depth - 1 if rng.random() < 0.4 else 1, var, envs)
         node = Node(op, None, [], [a, b])
@@ -184,14 +205,44 @@ def gen_bool(g, rng, depth, var, envs):
 
 def make_case(ctx, idx):
     rng = ctx.rng
-    mode = rng.choice(["prim2", "prim2", "prim1", "prim3", "bool2", "bool2", "bool2", "bool2", "bool1", "bool3"])
+    mode = rng.choice(["prim2", "prim2", "prim1", "prim3", "bool2", "bool2", "bool2", "bool2", "bool1", "bool3",
+                       "flip2", "flip2", "overinter"])
     params = rng.choice([[], [], ["t"], ["t"], ["t", "D"]])
+    if mode == "flip2":
+        params = ["t"]
     g = Gen(rng, params=params, allow_rotate=False, allow_translate=False)
     k = rng.choice([1, 2, 3]) if params else 0
     envs = [{p: [Fr(rng.randint(0, 16), 16)] for p in params} for _ in range(max(k, 1))]
     wrap = "bdry"
     depth = rng.choice([2, 2, 3]) if ctx.quick else rng.choice([2, 3, 3, 4])
-    if mode == "prim2":
+    if mode == "flip2":
+        # both vertex orientations among the parameter rows of ONE call
+        k = rng.choice([2, 3, 4])
+        while True:
+            ts = [rng.choice(FLIP_ROWS) for _ in range(k)]
+            if min(ts) < Fr(1, 2) < max(ts):
+                break
+        envs = [{"t": [t_]} for t_ in ts]
+        node, o, size = gen_flip_prim(rng)
+        if rng.random() < 0.4:
+            # Boolean over the flipping primitive: a disc around the common corner `origin` overlaps it for every row
+            from geomgen import PF, c
+            r = Fr(max(1, int(size * 4)), 8)
+            disc = Node("circle", "x", [PF([c(o[0]), c(o[1])]), PF([c(r)])])
+            op = rng.choice(["union", "cut", "inter"])
+            node = Node(op, None, [], [node, disc] if rng.random() < 0.6 else [disc, node])
+    elif mode == "overinter":
+        # union / cut built on top of an intersection
+        inner = gen_bool(g, rng, 2, "x", envs, top="inter")
+        for _ in range(20):
+            other = g.prim2("x")
+            op = rng.choice(["union", "cut"])
+            node = Node(op, None, [], [inner, other])
+            env = envs[0]
+            flags = [py_mem(inner, env, [float(x) for x in p_]) for lf in leaves(other) for p_, _ in leaf_boundary_points(lf, env, rng, 6)]
+            if any(flags) and not all(flags):
+                break
+    elif mode == "prim2":
         node = g.prim2("x")
     elif mode == "prim1":
         node = g.prim1("y")
@@ -264,6 +315,30 @@ def run_impl(case, rep, fixed_points=None):
                 continue
             for i, r in enumerate(t.tolist()):
                 rows.append(dict(p=r, env=i // n, src=how))
+        # density mode (random and grid) for a single parameter row
+        if len(envs) == 1:
+            try:
+                vol = float(torch.as_tensor(common.call_with_timeout(3, B.volume, pr)).reshape(-1)[0])
+            except Exception:
+                vol = None
+            if vol is not None and math.isfinite(vol) and vol > 0:
+                dens = max(n, 6) / vol
+                for how in ("drandom", "dgrid"):
+                    try:
+                        fn = B.sample_random_uniform if how == "drandom" else B.sample_grid
+                        s = common.call_with_timeout(3, fn, d=dens, params=pr)
+                    except common.CallTimeout:
+                        rep.count("sampler-timeout:" + how)
+                        continue
+                    except Exception:
+                        rep.count("sampler-raised:" + how)
+                        continue
+                    t = s.as_tensor
+                    if t.ndim != 2 or t.shape[1] != geomgen.DIM[var] or not bool(torch.isfinite(t).all()):
+                        rep.count("sampler-bad-output:" + how)
+                        continue
+                    for r in t.tolist()[:40]:
+                        rows.append(dict(p=r, env=0, src=how))
         # constructed points on the leaves' boundaries, kept if the boundary's own membership test accepts them
         if case["wrap"] == "bdry":
             lrng = random.Random(case["seed"])
@@ -453,6 +528,7 @@ def evaluate(ctx, rep, cases, fixed=None):
                                                         model=decode(replies[first["a"]])[0]),
                  kind=cs["mode"])
         for ent in ents:
+            ent["row0"] = ents[0]["row"]
             judge(rep, cs, solid, ent, replies)
 
 
@@ -470,7 +546,8 @@ def decode(reply):
 def judge(rep, cs, solid, ent, replies):
     r = ent["row"]
     inp = dict(dom=cs["dom"], wrap=cs["wrap"], expression=f"{cs['wrap']} {solid.tokens()}", params=cs["params"],
-               env=cs["envs"][r["env"]], point=[str(to_fr(a)) for a in r["p"]], point_float=r["p"], source=r["src"])
+               env=cs["envs"][r["env"]], point=[str(to_fr(a)) for a in r["p"]], point_float=r["p"], source=r["src"],
+               call_row0=dict(point=[str(to_fr(a)) for a in ent["row0"]["p"]], env=cs["envs"][ent["row0"]["env"]]))
     rep.count("points")
     rep.count("src:" + r["src"].split("-")[0])
     if "error" in r:
@@ -488,15 +565,25 @@ def judge(rep, cs, solid, ent, replies):
             rep.fail(f"normal() returned {nv} of length {ln:.6g}, not a unit vector ({r['src']})", inp, detail=dict(normal=nv), finding=fk)
         st = ent["step"]
         on_boundary = False
+        from_sampler = r["src"] in SAMPLER_SOURCES
         if st is None:
             rep.count("step-skipped:" + ent.get("skip", "?"))
+            if ent.get("skip") == "off-boundary" and from_sampler:
+                rep.fail(f"the boundary sampler ({r['src']}) returned the point {r['p']}, which is farther than 1e-4 of the shape's size from "
+                         f"every boundary piece of the expression; normal() returned {nv} there, which cannot be an outward normal", inp,
+                         detail=dict(normal=nv))
         else:
             gu, gd = replies[st["at"] + 2].split()[0], replies[st["at"] + 3].split()[0]
             on_boundary = {gu, gd} == {"0", "1"}
             if not on_boundary:
-                # accepted by the boundary's membership test / returned by a sampler, but the exact membership does not
-                # change across the point: not a boundary point of the composite (membership / sampler matter: C05, C01)
+                # the exact membership does not change across the point: not a boundary point of the composite
                 rep.count("step-skipped:not-on-composite-boundary")
+                if from_sampler:
+                    o, i = replies[st["at"]].split()[0], replies[st["at"] + 1].split()[0]
+                    rep.fail(f"the boundary sampler ({r['src']}) returned the point {r['p']} that is not on the boundary of the domain (exact "
+                             f"membership is {'inside' if gu == '1' else 'outside'} on both sides of it, ε = {st['eps']:.3g}); normal() returned {nv} "
+                             f"there, which is not outward: p + εn inside = {o}, p − εn inside = {i}", inp,
+                             detail=dict(normal=nv, eps=st["eps"], plus=o, minus=i))
         if on_boundary:
             o, i = replies[st["at"]].split()[0], replies[st["at"] + 1].split()[0]
             rep.count("step-tested")
@@ -546,11 +633,13 @@ def judge(rep, cs, solid, ent, replies):
 def run(ctx, rep, cases=None):
     rep.rule = ("boundary expressions from the public constructors: boundaries of interval / parallelogram / triangle (both vertex "
                 "orientations) / disc / ball and of nested unions, cuts, intersections of them with really overlapping operands, "
-                "parameter-dependent shapes with 1-3 parameter rows; points = the library's own random and grid boundary samples plus "
+                "parameter-dependent shapes with 1-4 parameter rows incl. triangles / parallelograms whose vertex orientation flips between the "
+                "rows of one call, unions / cuts on top of intersections; points = the library's own boundary samples in all four sampler modes "
+                "(random / grid × number n / density d, density for single parameter rows) plus "
                 "constructed edge / corner / arc points accepted by the boundary's membership test; non-trivial = at least one boundary "
                 "point was obtained and the expression is not a bare constant interval; distinct = distinct (expression, rows, points)")
     if cases is None:
-        cases = [make_case(ctx, i) for i in range(ctx.scale(110, 1200))]
+        cases = [make_case(ctx, i) for i in range(ctx.scale(115, 1300))]
     evaluate(ctx, rep, cases)
     opaque_streams(ctx, rep)
     h = rep.hist
@@ -573,8 +662,10 @@ def replay(ctx, obj):
         mesh_case(rep, [[Fr(a) for a in v] for v in inp["vertices"]], inp["faces"], 0, 0, fixed=inp["point"])
         rep.case(dict(replay=inp), True)
         return common.finish(ctx, rep, lean)
-    case = dict(id=0, mode="replay", wrap=inp["wrap"], dom=inp["dom"], params=inp["params"], envs=[inp["env"]], n=1, seed=0, m=0)
-    evaluate(ctx, rep, [case], fixed=[[(inp["point"], 0)]])
+    # the failing row is replayed in one normal() call together with the first row of the original call (row pairing matters)
+    r0 = inp.get("call_row0") or dict(point=inp["point"], env=inp["env"])
+    case = dict(id=0, mode="replay", wrap=inp["wrap"], dom=inp["dom"], params=inp["params"], envs=[r0["env"], inp["env"]], n=1, seed=0, m=0)
+    evaluate(ctx, rep, [case], fixed=[[(r0["point"], 0), (inp["point"], 1)]])
     return common.finish(ctx, rep, lean)
 
 
